@@ -109,8 +109,14 @@ def elabMulDiv (isMul : Bool) (ta tb : Ty) (st : ESt) : Option (Ty × ESt) :=
   if ta.isClosed && tb.isClosed then
     match ta, tb with
     | .dim da, .dim db =>
-      let r := Ty.dim (if isMul then dmul da db else ddiv da db)
-      some (r, st.node r)
+      match st.enforceDType ta with
+      | none => none
+      | some st1 =>
+        match st1.enforceDType tb with
+        | none => none
+        | some st2 =>
+          let r := Ty.dim (if isMul then dmul da db else ddiv da db)
+          some (r, st2.node r)
     | _, _ => none
   else
     match st.enforceDType ta with
